@@ -1,0 +1,20 @@
+//go:build verif
+
+package server
+
+import (
+	"github.com/sourcegraph/zoekt"
+	webserverv1 "github.com/sourcegraph/zoekt/grpc/protos/zoekt/webserver/v1"
+)
+
+// VerifNewSamplingSender exposes the unexported samplingSender (sampling.go): send = (*samplingSender).Send,
+// flush = (*samplingSender).Flush, over the given next sender.
+func VerifNewSamplingSender(next zoekt.Sender) (send func(*zoekt.SearchResult), flush func()) {
+	s := newSamplingSender(next)
+	return s.Send, s.Flush
+}
+
+// VerifGRPCChunkSender exposes the unexported gRPCChunkSender (server.go).
+func VerifGRPCChunkSender(ss webserverv1.WebserverService_StreamSearchServer) zoekt.Sender {
+	return gRPCChunkSender(ss)
+}
